@@ -371,6 +371,10 @@ def asset_lookup(ctx: Ctx) -> None:
     ci = next(iter(cis))
     loops = {(ast.unparse(e.target), e.line) for s_ in sums for e in s_.effects if e.kind == "for" and ast.unparse(e.value) == f"{sn}._dirlist"}
     allloops = {e.line for s_ in sums for e in s_.effects if e.kind == "for"}
+    if not loops and not allloops:
+        ctx.bad("R-PROV", f, "a pattern answer is the first entry of the directory listing that matches the asked asset's definition", f"{f.qualname} does not search {sn}._dirlist for the asked asset: "
+                "the answer comes from somewhere else (a table filled earlier), so it is not 'the first listed entry matching this kind' by construction", node=f.node)
+        return
     require(len(loops) == 1 and len(allloops) == 1, f"{f.fq}: expected one loop over {sn}._dirlist, found {sorted(loops)} of {len(allloops)} loop(s)")
     item, line = next(iter(loops))
     SPV = f"{sn}.simfile.get({prop})"
